@@ -306,7 +306,9 @@ pub fn after_server_frame(sim: &mut Sim, ticked: bool, t: u32, injected: bool) {
     }
     // C06: allocation out of proportion in a frame that processed injected bytes.
     if injected {
-        let bound = (1usize << 20).max(4 * sim.max_alloc_clean).max(64 * sim.inject_len);
+        // Largest single request ever seen in these small worlds is below 32 KiB (measured, reported as a
+        // probe histogram); the floor leaves a factor of four.
+        let bound = (128usize << 10).max(8 * sim.max_alloc_clean).max(64 * sim.inject_len);
         if sim.max_alloc_inject > bound {
             sim.violate("C06", "huge_allocation", format!("server frame with injected input requested {} bytes at once (bound {bound})", sim.max_alloc_inject));
         }
